@@ -199,7 +199,6 @@ Variables (path : list mp4_atom) (last : mp4_atom) (rest : list mp4_atom).
 Hypothesis Hpath : mp4_insert_path atoms = Some path.
 Hypothesis Hlast : rev path = last :: rest.
 Let off := ma_off last + ma_hdr last.
-Hypothesis Hfirst : forall T, In T (all_tabs atoms) -> ma_off T <> off.
 Variables (cb : Z -> Z -> Z) (ilst_data : list Z) (it : mp4_atom).
 Hypothesis Hit : mp4_forest_ok ilst_data false [it] 0 (zlen ilst_data) = true.
 Hypothesis Hsmall : zlen ilst_data < 4611686018427387904.
@@ -207,11 +206,11 @@ Let data := mp4_new_insert cb f last ilst_data.
 Let delta := zlen data.
 Variables (f2 f' : list Z).
 Hypothesis Hrun1 : mp4_update_parents (zlen data - 0) (splice f off 0 data) (map ma_off path) = Ok f2.
-Hypothesis Hrun2 : mp4_update_offsets atoms (zlen data - 0) off f2 = Ok f'.
+Hypothesis Hrun2 : mp4_update_offsets atoms (zlen data - 0) (off - 1) f2 = Ok f'.
 
-Let res := new_result f atoms Hwf Htab path last rest Hpath Hlast Hfirst data f2 f' Hrun1 Hrun2.
-Let PF := path_facts f atoms Hwf Htab path last rest Hpath Hlast Hfirst.
-Let LF := last_facts f atoms Hwf Htab path last rest Hpath Hlast Hfirst.
+Let res := new_result f atoms Hwf Htab path last rest Hpath Hlast data f2 f' Hrun1 Hrun2.
+Let PF := path_facts f atoms Hwf Htab path last rest Hpath Hlast.
+Let LF := last_facts f atoms Hwf Htab path last rest Hpath Hlast.
 
 Lemma nw_zlen : zlen f' = zlen f + delta.
 Proof. destruct res as (Z & _). unfold delta. lia. Qed.
@@ -237,7 +236,7 @@ Proof.
     assert (HsA : s_lo (seg_of An) = ma_off An /\ s_hi (seg_of An) = ma_off An + ma_hdr An + mp4_skip (ma_name An))
       by (unfold seg_of, s_lo, s_hi; rewrite HAk; split; reflexivity).
     unfold clear_of. lia.
-  - intros T HT. pose proof (member_facts f atoms Hwf off 0 data (new_placed f atoms Hwf Htab path last rest Hpath Hlast Hfirst) T HT)
+  - intros T HT. pose proof (member_facts f atoms Hwf off 0 data (off - 1) (new_placed f atoms Hwf Htab path last rest Hpath Hlast) T HT)
       as (HTin & _ & _ & _ & LT & KT).
     destruct (segs_disjoint _ _ _ _ _ x T Hwf Hx HTin) as [E|D].
     + subst. unfold clear_of. lia.
@@ -355,21 +354,20 @@ Qed.
 Theorem new_wellformed_moov moov T1 T2 K rest f2 f' :
   mp4_insert_path atoms = Some [moov] -> atoms = T1 ++ moov :: T2 -> ma_name moov = N_moov -> ma_kids moov = Some K ->
   rev [moov] = moov :: rest ->
-  (forall T, In T (all_tabs atoms) -> ma_off T <> ma_off moov + ma_hdr moov) ->
   let off := ma_off moov + ma_hdr moov in
   let data := mp4_new_insert cb f moov ilst_data in
   mp4_update_parents (zlen data - 0) (splice f off 0 data) (map ma_off [moov]) = Ok f2 ->
-  mp4_update_offsets atoms (zlen data - 0) off f2 = Ok f' ->
+  mp4_update_offsets atoms (zlen data - 0) (off - 1) f2 = Ok f' ->
   exists atoms', mp4_forest_ok f' true atoms' 0 (zlen f') = true /\
                  mp4_forest_height atoms' <= Z.max (mp4_forest_height atoms) (3 + Z.max 1 (mp4_height it)).
 Proof.
-  intros Hp Ea Nm Km Hrev Hfirst off data R1 R2.
+  intros Hp Ea Nm Km Hrev off data R1 R2.
   set (cs := zlen f - off). set (m := mp4_new_meta cb cs ilst_data).
   assert (Hdata : data = mp4_render N_udta m).
   { unfold data, mp4_new_insert. fold off cs m. rewrite Nm. reflexivity. }
   pose proof (new_meta_small cb cs ilst_data Hsmall) as (Hms & Hm8). fold m in Hms, Hm8.
-  pose proof (nw_zlen f atoms Hwf Htab [moov] moov rest Hp Hrev Hfirst cb ilst_data f2 f' R1 R2) as ZR.
-  pose proof (nw_region f atoms Hwf Htab [moov] moov rest Hp Hrev Hfirst cb ilst_data f2 f' R1 R2) as AGD.
+  pose proof (nw_zlen f atoms Hwf Htab [moov] moov rest Hp Hrev cb ilst_data f2 f' R1 R2) as ZR.
+  pose proof (nw_region f atoms Hwf Htab [moov] moov rest Hp Hrev cb ilst_data f2 f' R1 R2) as AGD.
   fold off data in ZR, AGD. set (delta := zlen data) in *.
   pose proof (zlen_nonneg data) as DN. assert (Hdel : delta = zlen data) by reflexivity.
   assert (Hdl : zlen data = zlen m + hdr_of m) by (rewrite Hdata; apply zlen_render'; reflexivity).
@@ -396,7 +394,7 @@ Proof.
     pose proof (atom_ok_header _ _ _ Hm) as Hh. pose proof (header_ok_facts _ _ _ _ _ _ Hh) as (G1 & G2 & G3 & G4 & G5 & G6 & G7).
     unfold mp4_header_ok in Hh. rewrite ztake_rd in Hh by lia. rewrite Z0 in Hh.
     apply andb_true_iff in Hh. destruct Hh as [_ HE]. lia. }
-  pose proof (nw_insert_container f atoms Hwf Htab [moov] moov rest Hp Hrev Hfirst cb ilst_data f2 f' R1 R2
+  pose proof (nw_insert_container f atoms Hwf Htab [moov] moov rest Hp Hrev cb ilst_data f2 f' R1 R2
                 true moov K [udta_new] (or_introl eq_refl) Hm Km ltac:(rewrite Sm; unfold off; lia) InK HU Htopc) as HM.
   fold data delta in HM.
   exists (T1 ++ MAtom (ma_name moov) (ma_off moov) (ma_len moov + delta) (ma_hdr moov) (Some ([udta_new] ++ shift_forest delta K))
@@ -411,7 +409,7 @@ Proof.
       remember (mp4_height it) as h4. clear - P1 P2 P3 P4. split_max_le; lia. }
   apply forest_ok_app_intro with (m := ma_off moov).
   - apply (forest_ok_same f f' true T1 _ _ F1); [|lia|intros _; right; lia].
-    apply (nw_before f atoms Hwf Htab [moov] moov rest Hp Hrev Hfirst cb ilst_data f2 f' R1 R2 _ _ _ _ F1); [unfold off; lia|].
+    apply (nw_before f atoms Hwf Htab [moov] moov rest Hp Hrev cb ilst_data f2 f' R1 R2 _ _ _ _ F1); [unfold off; lia|].
     intros y Hy. split; [rewrite Ea, flat_app; apply in_or_app; left; exact Hy|].
     pose proof (forest_within _ _ _ _ _ F1) as W. rewrite Forall_forall in W. specialize (W y Hy). unfold within in W.
     destruct (flat_member_ok f atoms Hwf y ltac:(rewrite Ea, flat_app; apply in_or_app; left; exact Hy)) as (tp & Hyok).
@@ -420,7 +418,7 @@ Proof.
     pose proof (forest_ok_transfer f f' delta true T2 _ _ F3) as X.
     replace (ma_off moov + ma_len moov + delta) with (ma_off moov + (ma_len moov + delta)) in X by lia.
     rewrite ZR. apply X; [|lia|intros _; left; lia].
-    apply (nw_after f atoms Hwf Htab [moov] moov rest Hp Hrev Hfirst cb ilst_data f2 f' R1 R2 _ _ _ _ F3); [unfold off; lia|].
+    apply (nw_after f atoms Hwf Htab [moov] moov rest Hp Hrev cb ilst_data f2 f' R1 R2 _ _ _ _ F3); [unfold off; lia|].
     intros y Hy. split; [rewrite Ea, flat_app, flat_cons; apply in_or_app; right; apply in_or_app; right; exact Hy|].
     pose proof (forest_within _ _ _ _ _ F3) as W. rewrite Forall_forall in W. specialize (W y Hy). unfold within in W.
     apply not_in_by_off. intros A [<-|[]]. lia.
@@ -431,20 +429,19 @@ Theorem new_wellformed_udta moov udta T1 T2 M1 M2 K rest f2 f' :
   mp4_insert_path atoms = Some [moov; udta] -> atoms = T1 ++ moov :: T2 -> ma_name moov = N_moov ->
   ma_kids moov = Some (M1 ++ udta :: M2) -> ma_name udta = N_udta -> ma_kids udta = Some K ->
   rev [moov; udta] = udta :: rest ->
-  (forall T, In T (all_tabs atoms) -> ma_off T <> ma_off udta + ma_hdr udta) ->
   let off := ma_off udta + ma_hdr udta in
   let data := mp4_new_insert cb f udta ilst_data in
   mp4_update_parents (zlen data - 0) (splice f off 0 data) (map ma_off [moov; udta]) = Ok f2 ->
-  mp4_update_offsets atoms (zlen data - 0) off f2 = Ok f' ->
+  mp4_update_offsets atoms (zlen data - 0) (off - 1) f2 = Ok f' ->
   exists atoms', mp4_forest_ok f' true atoms' 0 (zlen f') = true /\
                  mp4_forest_height atoms' <= Z.max (mp4_forest_height atoms) (3 + Z.max 1 (mp4_height it)).
 Proof.
-  intros Hp Ea Nm Km Nu Ku Hrev Hfirst off data R1 R2.
+  intros Hp Ea Nm Km Nu Ku Hrev off data R1 R2.
   set (cs := zlen f - off).
   assert (Hdata : data = mp4_new_meta cb cs ilst_data).
   { unfold data, mp4_new_insert. fold off cs. rewrite Nu. reflexivity. }
-  pose proof (nw_zlen f atoms Hwf Htab [moov; udta] udta rest Hp Hrev Hfirst cb ilst_data f2 f' R1 R2) as ZR.
-  pose proof (nw_region f atoms Hwf Htab [moov; udta] udta rest Hp Hrev Hfirst cb ilst_data f2 f' R1 R2) as AGD.
+  pose proof (nw_zlen f atoms Hwf Htab [moov; udta] udta rest Hp Hrev cb ilst_data f2 f' R1 R2) as ZR.
+  pose proof (nw_region f atoms Hwf Htab [moov; udta] udta rest Hp Hrev cb ilst_data f2 f' R1 R2) as AGD.
   fold off data in ZR, AGD. set (delta := zlen data) in *.
   pose proof (zlen_nonneg data) as DN. assert (Hdel : delta = zlen data) by reflexivity.
   rewrite Ea in Hwf. pose proof (forest_ok_split _ _ _ _ _ _ _ Hwf) as (F1 & Hm & F3). rewrite <- Ea in Hwf.
@@ -465,7 +462,7 @@ Proof.
     - apply InKm. eapply in_flat_kids; [|exact Ku|exact Hy]. apply in_or_app. right; left; reflexivity.
     - pose proof (forest_within _ _ _ _ _ Hk) as W. rewrite Forall_forall in W. specialize (W y Hy). unfold within in W.
       apply not_in_by_off. intros A0 [<-|[<-|[]]]; unfold off in *; lia. }
-  pose proof (nw_insert_container f atoms Hwf Htab [moov; udta] udta rest Hp Hrev Hfirst cb ilst_data f2 f' R1 R2
+  pose proof (nw_insert_container f atoms Hwf Htab [moov; udta] udta rest Hp Hrev cb ilst_data f2 f' R1 R2
                 false udta K [nm_meta off cb cs ilst_data it] (or_intror (or_introl eq_refl)) Hu Ku
                 ltac:(rewrite Su; unfold off; lia) InK HN ltac:(discriminate)) as HUD.
   fold data delta in HUD.
@@ -480,11 +477,11 @@ Proof.
   assert (HMV : mp4_atom_ok f' true (MAtom (ma_name moov) (ma_off moov) (ma_len moov + delta) (ma_hdr moov)
                                        (Some (M1 ++ udta' :: shift_forest delta M2))) = true).
   { rewrite atom_ok_node.
-    pose proof (nw_anc_header f atoms Hwf Htab [moov; udta] udta rest Hp Hrev Hfirst cb ilst_data f2 f' R1 R2 true moov
+    pose proof (nw_anc_header f atoms Hwf Htab [moov; udta] udta rest Hp Hrev cb ilst_data f2 f' R1 R2 true moov
                (or_introl eq_refl) Hm ltac:(unfold off; lia) Htopc) as HH. fold data delta in HH. rewrite HH. rewrite Hcm. cbn [andb].
     apply forest_ok_app_intro with (m := ma_off udta).
     - apply (forest_ok_same f f' false M1 _ _ G1); [|lia|discriminate].
-      apply (nw_before f atoms Hwf Htab [moov; udta] udta rest Hp Hrev Hfirst cb ilst_data f2 f' R1 R2 _ _ _ _ G1); [unfold off; lia|].
+      apply (nw_before f atoms Hwf Htab [moov; udta] udta rest Hp Hrev cb ilst_data f2 f' R1 R2 _ _ _ _ G1); [unfold off; lia|].
       intros y Hy. split; [apply InKm; rewrite flat_app; apply in_or_app; left; exact Hy|].
       pose proof (forest_within _ _ _ _ _ G1) as W. rewrite Forall_forall in W. specialize (W y Hy). unfold within in W.
       destruct (flat_member_ok f atoms Hwf y ltac:(apply InKm; rewrite flat_app; apply in_or_app; left; exact Hy)) as (tp & Hyok).
@@ -494,7 +491,7 @@ Proof.
       replace (ma_off udta + ma_len udta + delta) with (ma_off udta + (ma_len udta + delta)) in X by lia.
       replace (ma_off moov + ma_len moov + delta) with (ma_off moov + (ma_len moov + delta)) in X by lia.
       apply X; [|lia|discriminate].
-      apply (nw_after f atoms Hwf Htab [moov; udta] udta rest Hp Hrev Hfirst cb ilst_data f2 f' R1 R2 _ _ _ _ G3); [unfold off; lia|].
+      apply (nw_after f atoms Hwf Htab [moov; udta] udta rest Hp Hrev cb ilst_data f2 f' R1 R2 _ _ _ _ G3); [unfold off; lia|].
       intros y Hy. split; [apply InKm; rewrite flat_app, flat_cons; apply in_or_app; right; apply in_or_app; right; exact Hy|].
       pose proof (forest_within _ _ _ _ _ G3) as W. rewrite Forall_forall in W. specialize (W y Hy). unfold within in W.
       apply not_in_by_off. intros A0 [<-|[<-|[]]]; lia. }
@@ -511,7 +508,7 @@ Proof.
       clear - P1 P2 P3 P4 P5 P6. split_max_le; lia. }
   apply forest_ok_app_intro with (m := ma_off moov).
   - apply (forest_ok_same f f' true T1 _ _ F1); [|lia|intros _; right; lia].
-    apply (nw_before f atoms Hwf Htab [moov; udta] udta rest Hp Hrev Hfirst cb ilst_data f2 f' R1 R2 _ _ _ _ F1); [unfold off; lia|].
+    apply (nw_before f atoms Hwf Htab [moov; udta] udta rest Hp Hrev cb ilst_data f2 f' R1 R2 _ _ _ _ F1); [unfold off; lia|].
     intros y Hy. split; [rewrite Ea, flat_app; apply in_or_app; left; exact Hy|].
     pose proof (forest_within _ _ _ _ _ F1) as W. rewrite Forall_forall in W. specialize (W y Hy). unfold within in W.
     destruct (flat_member_ok f atoms Hwf y ltac:(rewrite Ea, flat_app; apply in_or_app; left; exact Hy)) as (tp & Hyok).
@@ -520,7 +517,7 @@ Proof.
     pose proof (forest_ok_transfer f f' delta true T2 _ _ F3) as X.
     replace (ma_off moov + ma_len moov + delta) with (ma_off moov + (ma_len moov + delta)) in X by lia.
     rewrite ZR. apply X; [|lia|intros _; left; lia].
-    apply (nw_after f atoms Hwf Htab [moov; udta] udta rest Hp Hrev Hfirst cb ilst_data f2 f' R1 R2 _ _ _ _ F3); [unfold off; lia|].
+    apply (nw_after f atoms Hwf Htab [moov; udta] udta rest Hp Hrev cb ilst_data f2 f' R1 R2 _ _ _ _ F3); [unfold off; lia|].
     intros y Hy. split; [rewrite Ea, flat_app, flat_cons; apply in_or_app; right; apply in_or_app; right; exact Hy|].
     pose proof (forest_within _ _ _ _ _ F3) as W. rewrite Forall_forall in W. specialize (W y Hy). unfold within in W.
     apply not_in_by_off. intros A0 [<-|[<-|[]]]; lia.
